@@ -82,6 +82,7 @@ TQ = 16.0
 SIG_F1 = {"site": "process_changing_cause", "shape": "skip path (handler reason, no selected handlers): cycle closed, stale progress record of a no-longer-selected handler never purged"}
 SIG_F2 = {"site": "process_resource_causes", "shape": "object stopped matching every handler (prematch): stale progress record stays on the object"}
 SIG_F3 = {"site": "process_changing_cause", "shape": "change reverted to the last-handled state while a handler was retrying: no-op cause leaves its progress record forever"}
+SIG_F7 = {"site": "application.apply", "shape": "sleep skipped because of a patch that changes nothing on the server: no event follows, the delayed handlers are never woken"}
 SIG_F6 = {"site": "patching.patch_obj", "shape": "request target uid ≠ computed-for uid: the cycle of a deleted object wrote its results onto the successor created under the same name"}
 SIG_F5 = {"site": "process_resource_causes+apply", "shape": "cycle entered with a carried remaining patch that produces no request: state-dependent handlers skipped, nothing written, no further event — handling never resumes"}
 SIG_F4 = {"site": "process_changing_cause", "shape": "handler finished on an older state of a still-open cycle is not re-run for the newer state, yet last-handled becomes the newer state"}
@@ -227,7 +228,15 @@ class Facts:
                           and r["cycle_uid"] != self.uid and isinstance(r.get("response"), int) and r["response"] < 300]
         # lost wake-up: the object's last processing cycle started with a carried remaining patch (after a 422 on a
         # finalizer JSON-patch), skipped the handlers for that reason and then issued no request at all
-        mine = [c for c in tr["cycles"] if c["uid"] == self.uid and c["inc"] == self.last_inc]
+        mine = [c for c in tr["cycles"] if c["uid"] == self.uid and c["inc"] == self.last_inc and c["event_type"] != "DELETED"]
+        # lost wake-up of another kind: the last cycle had delayed handlers AND a non-empty patch, so the sleep was
+        # skipped; but the patch changed nothing on the server (same resource version), so no event followed
+        self.noop_patch = False
+        if mine:
+            c = mine[-1]
+            ap = c.get("apply") or {}
+            self.noop_patch = bool(ap.get("delays") and ap.get("patch") and ap.get("rv") is not None
+                                   and str(ap.get("rv")) == str(c.get("rv")))
         self.lost_wakeup = False
         if mine and self.final is not None:
             c = mine[-1]
@@ -243,6 +252,21 @@ def oracle(ctx: Ctx, sc: dict, tr: dict) -> dict:
     f = Facts(sc, tr)
     rep = {"scenario": sc}
     out: dict[str, Any] = {"class": "converged", "findings": []}
+    if f.noop_patch and not f.cross_uid:
+        real_fail7 = ctx.oracle_fail
+
+        class _Resigned7:
+            def __getattr__(self, name: str) -> Any:
+                return getattr(ctx, name)
+
+            def oracle_fail(self, what: str, replay: Any, signature: dict | None = None) -> None:
+                if signature in (SIG_F2, SIG_F4):
+                    real_fail7(what, replay, signature)
+                else:
+                    real_fail7(what + " [the last cycle skipped its sleep for a patch that changed nothing: no event follows]",
+                               replay, SIG_F7)
+                    out["findings"].append("C03-F7")
+        ctx = _Resigned7()   # type: ignore[assignment]
     if f.cross_uid:
         # the object received the results of its predecessor's cycle (C08's finding F2): whatever goes wrong with it
         # afterwards is a consequence of that write, reported under its own signature
@@ -486,6 +510,8 @@ def abstract_tail(sc: dict, tr: dict, cap: int) -> tuple[list | None, Any]:
         return None, "deleted-at-once"      # no finalizer held it: the deletion itself ends the history
     if float(sc.get("settings", {}).get("watching.server_timeout", 4096.0)) < f.end:
         return None, "relisting-in-tail"
+    if any(h["kind"] == "event" for h in sc["handlers"]):
+        return None, "event-handler-results"   # their results add a (no-op) patch to every cycle: outside the model (C03-F7)
     if f.cross_uid:
         return None, "cross-uid-write"      # not silent: a write of the deleted predecessor's cycle landed on this object
     if any(x != FINALIZER for x in (f.last_body["metadata"].get("finalizers") or [])):
